@@ -608,6 +608,24 @@ pub fn generate(s: &mut Session, thorough: bool) -> bool {
             }
             _ => "panicked".into(),
         };
+        // Judged: the property quantifies over all events, equal amplitudes included. The real
+        // code pairs tied pad hits by their position in an unstable sort, which is not mirror
+        // symmetric (finding F8); the text below is the signature matched in known_findings.json.
+        let tie_breaks = note.contains("mirror-symmetric pairing: false");
+        let occ = occ_of(&ws);
+        let (imp, _) = impl_ranges(&occ);
+        s.push_oracle(
+            "mirror-tie",
+            format!("ranges {}", occ_string(&occ)),
+            imp,
+            if tie_breaks {
+                Some(format!("mirror tie (equal pad-hit amplitudes in one column and time bin): wires 16/17 amplitude 500/300, pad triplets at rows 100-102 and 300-302 of equal amplitude; {note}"))
+            } else if note == "panicked" {
+                Some("avalanches() panicked on the mirror tie probe".into())
+            } else {
+                None
+            },
+        );
         s.notes.insert("mirror_tie_probe".into(), note.into());
     }
     // (vi) the full ring, last: the report lists only the first 50 oracle failures, so the
